@@ -35,7 +35,7 @@ REQUIRED_MONITORS = ["I_equals_weighted_mean", "Fq_outputs_equal_weighted_means"
 REQUIRED_BUCKETS = {
     "quick": ["dims:1", "dims:2", "dims:3", "dims:4", "dims:5", "mesh:2..99", "mesh:100", "mesh:101..199",
               "mesh:200..400", "trunc:2", "trunc:1", "trunc:0", "cutoff:0", "cutoff:1e-5", "cutoff:placed", "cutoff:tie",
-              "dim:1d", "dim:2d", "have_Fq", "no_Fq", "hollow", "invalid_points>0", "loops>=3_cross_chunk",
+              "dim:1d", "dim:2d", "have_Fq", "no_Fq", "Fq_in_2d", "hollow", "invalid_points>0", "loops>=3_cross_chunk",
               "lane:asan", "refusal"] + ["dist:" + d for d in sas.DIST],
 }
 REQUIRED_BUCKETS["thorough"] = REQUIRED_BUCKETS["quick"] + ["mesh:~1000"]
@@ -314,8 +314,8 @@ def run_value(case, rec):
                                          all(a[1] == b[0] for a, b in zip(cover[:-1], cover[1:])) and
                                          cover[-1][1] >= 1)
     rec.check("trace_covers_mesh_once", okc, dict(ctx, trace=tr.trace[:20]), key=trunc_key(meta, st))
-    # ---- Fq
-    if dim == "1d":
+    # ---- Fq (2-D kernels report <F^2>, R_eff and the volumes too: the branch without a separate <F>)
+    if True:
         nmodes = len(i.radius_effective_modes or [])
         mode = int(rng.integers(0, nmodes + 1))
         fpars = dict(pars)
@@ -330,7 +330,7 @@ def run_value(case, rec):
                 okF &= core.close(ratio, evF["form"]/evF["shell"], 1e-10)
             if mode:
                 okF &= core.close(R, evF["radius"], 1e-10, 1e-300)
-            if i.have_Fq:
+            if i.have_Fq and dim == "1d":
                 okF &= core.close(F1, evF["F1"], 1e-10, 1e-10*math.sqrt(s2))
             rec.check("Fq_outputs_equal_weighted_means", okF,
                       None if okF else dict(ctx, mode=mode, observed=[F1, F2, R, Vs, ratio],
@@ -342,7 +342,10 @@ def run_value(case, rec):
             rec.check("Fq_outputs_equal_weighted_means", okF, dict(ctx, mode=mode, observed=[F1, F2, R, Vs, ratio],
                                                                    expected="<F^2>=0 for an empty qualifying set"),
                       key=trunc_key(meta, st))
-        rec.bucket("have_Fq" if i.have_Fq else "no_Fq")
+        if dim == "1d":
+            rec.bucket("have_Fq" if i.have_Fq else "no_Fq")
+        else:
+            rec.bucket("Fq_in_2d")
     # ---- partition independence on the raw symbol
     if 2 <= num_eval <= 450 and all(l > 0 for l in lengths):
         details, values, is_mag = sdetails.make_kernel_args(kernel, mesh)
